@@ -57,40 +57,40 @@ macro "pool_same_close" : tactic => `(tactic| first
        (by first | exact Pool.loadProfile_view _ _ _ _ | exact Pool.evictProfile_view _ _ _ | exact Pool.onWorker'_view _ _ _)
        rfl rfl rfl rfl rfl rfl rfl rfl rfl rfl rfl rfl))
 
-theorem handleProfile_spec (n : Int) (ex : List SEvent) (ev : SEvent) (load : Bool) :
+theorem handleProfile_rspec (n : Int) (ex : List SEvent) (ev : SEvent) (load : Bool) :
     KeepsR n ex (handleProfile ev load) := by
-  mvcgen [handleProfile, getPool, setPool, raiseOutcome]
+  rmvcgen [handleProfile, getPool, setPool, raiseOutcome]
   all_goals first
     | ev_close
     | wk_close
     | pool_same_close
     | (intro s _ _ h3 _ _; rw [h3]; decide)
 
-theorem placementRow_spec (n : Int) (ex : List SEvent) (t : TaskId) (pid : Nat) (time : Int) (st : Strategy) :
+theorem placementRow_rspec (n : Int) (ex : List SEvent) (t : TaskId) (pid : Nat) (time : Int) (st : Strategy) :
     KeepsR n ex (placementRow t pid time st) := by
-  have h_row := row_spec n ex
-  mvcgen [placementRow, getTask, getGraph, getPool, setPool, h_row]
+  have h_row := row_rspec n ex
+  rmvcgen [placementRow, getTask, getGraph, getPool, setPool, h_row]
   all_goals first
     | ev_close
     | wk_close
     | pool_same_close
     | (intro s _ _ h3 _ _; rw [h3]; decide)
 
-theorem finishRows_spec (n : Int) (ex : List SEvent) (t : TaskId) (time : Int) : KeepsR n ex (finishRows t time) := by
-  have h_row := row_spec n ex
-  mvcgen [finishRows, getTask, getGraph, h_row]
+theorem finishRows_rspec (n : Int) (ex : List SEvent) (t : TaskId) (time : Int) : KeepsR n ex (finishRows t time) := by
+  have h_row := row_rspec n ex
+  rmvcgen [finishRows, getTask, getGraph, h_row]
   case inv1 => exact loopR n ex
   all_goals first
     | ev_close
     | wk_close
     | (intro s _ _ h3 _ _; rw [h3]; decide)
 
-theorem handleUpdateWorkload_spec (n : Int) (ex : List SEvent) (ev : SEvent) :
+theorem handleUpdateWorkload_rspec (n : Int) (ex : List SEvent) (ev : SEvent) :
     KeepsR n ex (handleUpdateWorkload ev) := by
-  have h_row := row_spec n ex
-  have h_mk := mkEvent_spec n ex
-  have h_add := addEvent_spec n ex
-  mvcgen [handleUpdateWorkload, releasable, getTask, getGraph, h_row, h_mk, h_add]
+  have h_row := row_rspec n ex
+  have h_mk := mkEvent_rspec n ex
+  have h_add := addEvent_rspec n ex
+  rmvcgen [handleUpdateWorkload, releasable, getTask, getGraph, h_row, h_mk, h_add]
   case inv1 => exact loopR n ex
   case inv2 => exact loopR n ex
   all_goals first
@@ -128,12 +128,12 @@ macro "notify_close" : tactic => `(tactic| first
   | (have h := ‹AP RunOK _ _ ∧ _›
      exact AP.notifyGraphW _ _ _ _ _ _ _ h ‹_› rfl rfl rfl rfl rfl (fun _ h' => h') rfl rfl rfl rfl))
 
-theorem finishNotify_spec (n : Int) (ex : List SEvent) (t : TaskId) (time : Int) : KeepsR n ex (finishNotify t time) := by
-  have h_mk := mkEvent_spec n ex
-  have h_add := addEvent_spec n ex
-  have h_logE := logE_spec n ex
-  have h_ngc := notifyGraphCompletion_spec n ex
-  mvcgen [finishNotify, getTask, getGraph, setGraph, h_mk, h_add, h_logE, h_ngc]
+theorem finishNotify_rspec (n : Int) (ex : List SEvent) (t : TaskId) (time : Int) : KeepsR n ex (finishNotify t time) := by
+  have h_mk := mkEvent_rspec n ex
+  have h_add := addEvent_rspec n ex
+  have h_logE := logE_rspec n ex
+  have h_ngc := notifyGraphCompletion_rspec n ex
+  rmvcgen [finishNotify, getTask, getGraph, setGraph, h_mk, h_add, h_logE, h_ngc]
   case inv1 => exact loopR n ex
   case inv2 => exact loopR n ex
   case inv3 => exact loopR n ex
@@ -147,14 +147,14 @@ theorem finishNotify_spec (n : Int) (ex : List SEvent) (t : TaskId) (time : Int)
     | notify_close
     | (intro s _ _ h3 _ _; rw [h3]; decide)
 
-theorem placementNotReady_spec (n : Int) (ex : List SEvent) (ev : SEvent) (t : TaskId) (p : PlacementS) :
+theorem placementNotReady_rspec (n : Int) (ex : List SEvent) (ev : SEvent) (t : TaskId) (p : PlacementS) :
     KeepsR n ex (placementNotReady ev t p) := by
-  have h_mk := mkEvent_spec' n ex
-  have h_add := addEvent_spec n ex
-  have h_logE := logE_spec n ex
-  have h_row := row_spec n ex
-  have h_liftE : ∀ e : Except SErr Int, KeepsR n ex (liftE e) := fun e => liftE_spec n ex e
-  mvcgen [placementNotReady, getTask, getGraph, setGraph, h_mk, h_add, h_logE, h_row, h_liftE]
+  have h_mk := mkEvent_rspec' n ex
+  have h_add := addEvent_rspec n ex
+  have h_logE := logE_rspec n ex
+  have h_row := row_rspec n ex
+  have h_liftE : ∀ e : Except SErr Int, KeepsR n ex (liftE e) := fun e => liftE_rspec n ex e
+  rmvcgen [placementNotReady, getTask, getGraph, setGraph, h_mk, h_add, h_logE, h_row, h_liftE]
   case inv1 => exact loopR n ex
   case inv2 => exact loopR n ex
   all_goals first
@@ -170,15 +170,15 @@ theorem noFin_mem_sorted (evs : List SEvent) (h : NoFin evs) (pref suff : List S
     (hs : Heap.pySorted SEvent.lt evs = pref ++ cur :: suff) : cur.ev.etype ≠ ET.taskFinished :=
   h cur (mem_pySorted evs cur (by rw [hs]; simp))
 
-theorem handleSchedulerFinish_spec (n : Int) (ex : List SEvent) (ev : SEvent) :
+theorem handleSchedulerFinish_rspec (n : Int) (ex : List SEvent) (ev : SEvent) :
     KeepsR n ex (handleSchedulerFinish ev) := by
-  have h_mk := mkEvent_spec n ex
-  have h_add := addEvent_spec n ex
-  have h_row := row_spec n ex
-  have h_skip := placementSkip_spec n ex
-  have h_pe := placementEvents_spec n ex
-  have h_next := nextSchedulerEvent_spec n ex
-  mvcgen [handleSchedulerFinish, getTask, getGraph, h_mk, h_add, h_row, h_skip, h_pe, h_next]
+  have h_mk := mkEvent_rspec n ex
+  have h_add := addEvent_rspec n ex
+  have h_row := row_rspec n ex
+  have h_skip := placementSkip_rspec n ex
+  have h_pe := placementEvents_rspec n ex
+  have h_next := nextSchedulerEvent_rspec n ex
+  rmvcgen [handleSchedulerFinish, getTask, getGraph, h_mk, h_add, h_row, h_skip, h_pe, h_next]
   case inv1 => exact loopEv n ex
   case inv2 => exact loopR n ex
   all_goals first
